@@ -43,7 +43,7 @@ structure State where
   cfg : AdminList
   allowances : AMap Addr Allowance
   permissions : AMap Addr Permissions
-  deriving Repr, Inhabited
+  deriving Repr, DecidableEq, Inhabited
 
 abbrev InstMsg := Cw1Whitelist.InstMsg
 
